@@ -101,6 +101,9 @@ def run_tlc(module, cfg_text, gen_modules=None, workers=4, timeout=600, workdir=
         subprocess.run(['pkill', '-f', workdir], capture_output=True)
     res.wall = time.time() - t0
     parse_output(res.stdout, res)
+    if os.environ.get('NMFU_TLC_KEEP'):
+        keep = True
+        print('kept TLC workdir', workdir, module, round(res.wall, 1))
     if own and not keep:
         shutil.rmtree(workdir, ignore_errors=True)
     else:
